@@ -245,6 +245,55 @@ func run(r *Rng, tier string, n int) {
 			checkTruncate(m, s, plain, (i < 40 && si%3 == 0) || (i%10 == 0 && si == 2))
 		}
 	}
+	// records in ONE section only (answer, authority or additional), with and without OPT, owner names
+	// equal to a long question name so that a record fits only when its owner is compressed; sizes at
+	// the exact compressed length of every prefix
+	for sec := 0; sec < 3; sec++ {
+		for _, withOpt := range []bool{false, true} {
+			for nrec := 1; nrec <= 4; nrec++ {
+				qn := "a-rather-long-service-name.some-namespace.svc.cluster." + []string{"example.org.", "example.net."}[nrec%2]
+				m := new(dns.Msg)
+				m.Response = true
+				m.Question = []dns.Question{{Name: qn, Qtype: dns.TypeTXT, Qclass: 1}}
+				var recs []dns.RR
+				for j := 0; j < nrec; j++ {
+					recs = append(recs, &dns.TXT{Hdr: dns.RR_Header{Name: qn, Rrtype: dns.TypeTXT, Class: 1, Ttl: 60}, Txt: []string{strings.Repeat("a", 180+r.Intn(40)), strings.Repeat("b", 180+r.Intn(40))}})
+				}
+				set := func(x *dns.Msg, rs []dns.RR) {
+					x.Answer, x.Ns, x.Extra = nil, nil, nil
+					switch sec {
+					case 0:
+						x.Answer = rs
+					case 1:
+						x.Ns = rs
+					default:
+						x.Extra = rs
+					}
+					if withOpt {
+						x.Extra = append(x.Extra, &dns.OPT{Hdr: dns.RR_Header{Name: ".", Rrtype: dns.TypeOPT, Class: 1232}})
+					}
+				}
+				set(m, recs)
+				sizes := []int{512}
+				for j := 0; j <= nrec; j++ {
+					p := m.Copy()
+					set(p, append([]dns.RR{}, recs[:j]...))
+					p.Compress = true
+					if pl := packedLen(p); pl > 0 {
+						sizes = append(sizes, pl-1, pl, pl+1)
+					}
+					p.Compress = false
+					if pl := packedLen(p); pl > 0 {
+						sizes = append(sizes, pl-1, pl, pl+1)
+					}
+				}
+				for _, sz := range sizes {
+					checkTruncate(m, sz, true, false)
+				}
+				st["single_section_messages"]++
+			}
+		}
+	}
 	// TSIG: untouched
 	m := new(dns.Msg)
 	m.SetQuestion("example.org.", dns.TypeA)
